@@ -107,7 +107,7 @@ from codemodder.registry import load_registered_codemods
 ids = load_registered_codemods().ids
 from pathlib import Path
 proj = Path(sys.argv[1])
-r = e2e.run(proj, ["--codemod-include", "pixee:python/numpy-nan-equality,pixee:python/fix-assert-tuple,pixee:python/use-walrus-if", "--dry-run"])
+r = e2e.run(proj, ["--codemod-include", "pixee:python/numpy-nan-equality,pixee:python/fix-assert-tuple,pixee:python/use-walrus-if,pixee:python/order-imports,pixee:python/unused-imports", "--dry-run"])
 rep = e2e.normalise_report(r["report"])
 print(json.dumps({"ids": ids, "rc": r["rc"], "report": hashlib.sha1(json.dumps(rep, sort_keys=True).encode()).hexdigest()}))
 """
@@ -303,6 +303,9 @@ def search(ctx):
     # paths that differ only in letter case (a case-sensitive file system keeps them apart; an ordering that folds case would tie)
     for name in ("pkg/Config.py", "pkg/config.py", "pkg/CONFIG.py", "Mod.py", "mod.py"):
         files[name] = rng.choice(seeds["pixee:python/fix-assert-tuple"])
+    # the two import codemods keep what they collect in sets: names that tie under a case-folding sort key, several unused imports
+    files["ties.py"] = "from m import Other, other, thing as T2, thing as t1\nimport os\nimport abc\n\nprint(Other, other, T2, t1, os, abc)\n"
+    files["unused.py"] = "import os\nimport sys\nimport json\nimport re\nimport abc\nimport ast\n\nprint(1)\n"
     e2e.write_project(root / "p", files)
     prog = root / "prog.py"
     prog.write_text(HASHSEED_PROG % str(common.VERIF / "harness"))
